@@ -88,6 +88,54 @@ def _mutations(fn: ast.AST):
                     i = seq.index(tgt)
                     seq[i:i + 1] = tgt.body + tgt.finalbody
                     yield f"L{n.lineno} try/finally flattened", m
+        # 9. swallow: wrap a call statement in try/except Exception: pass (error discipline)
+        if isinstance(n, (ast.Expr, ast.Assign)) and n is not fn and any(isinstance(c, ast.Call) for c in ast.walk(n)) and not (isinstance(n, ast.Expr) and isinstance(n.value, ast.Constant)):
+            m = _clone(fn)
+            tgt = list(ast.walk(m))[idx]
+            par = _parent_of(m, tgt)
+            for field in ("body", "orelse", "finalbody"):
+                seq = getattr(par, field, None)
+                if isinstance(seq, list) and tgt in seq and isinstance(tgt, ast.Expr):
+                    h = ast.ExceptHandler(type=ast.Name(id="Exception", ctx=ast.Load()), name=None, body=[ast.Pass()])
+                    seq[seq.index(tgt)] = ast.Try(body=[tgt], handlers=[h], orelse=[], finalbody=[])
+                    ast.fix_missing_locations(m)
+                    yield f"L{n.lineno} swallow errors of `{_short(n)}`", m
+        # 10. move the last statement of a with-block behind the block (transaction / lock scope)
+        if isinstance(n, (ast.With, ast.AsyncWith)) and len(n.body) >= 2:
+            m = _clone(fn)
+            tgt = list(ast.walk(m))[idx]
+            par = _parent_of(m, tgt)
+            for field in ("body", "orelse", "finalbody"):
+                seq = getattr(par, field, None)
+                if isinstance(seq, list) and tgt in seq:
+                    last = tgt.body.pop()
+                    seq.insert(seq.index(tgt) + 1, last)
+                    yield f"L{n.lineno} move `{_short(last)}` out of the with-block", m
+        # 11. swap two adjacent simple statements (ordering of effects)
+        for field in ("body", "orelse", "finalbody"):
+            seq = getattr(n, field, None)
+            if isinstance(seq, list) and not isinstance(n, ast.ClassDef):
+                for k in range(len(seq) - 1):
+                    a, b = seq[k], seq[k + 1]
+                    if isinstance(a, (ast.Expr, ast.Assign, ast.AugAssign)) and isinstance(b, (ast.Expr, ast.Assign, ast.AugAssign, ast.If)) \
+                            and not (isinstance(a, ast.Expr) and isinstance(a.value, ast.Constant)):
+                        m = _clone(fn)
+                        tgt = list(ast.walk(m))[idx]
+                        sq = getattr(tgt, field)
+                        sq[k], sq[k + 1] = sq[k + 1], sq[k]
+                        yield f"L{a.lineno} swap `{_short(a, 30)}` <-> `{_short(b, 30)}`", m
+        # 12. `return <value>` -> `return None` in non-generator code
+        if isinstance(n, ast.Return) and n.value is not None and not (isinstance(n.value, ast.Constant) and n.value.value is None):
+            m = _clone(fn)
+            tgt = list(ast.walk(m))[idx]
+            tgt.value = None
+            yield f"L{n.lineno} return nothing instead of `{_short(n.value)}`", m
+        # 13. forget an await on a statement-level call
+        if isinstance(n, ast.Expr) and isinstance(n.value, ast.Await) and isinstance(n.value.value, ast.Call):
+            m = _clone(fn)
+            tgt = list(ast.walk(m))[idx]
+            tgt.value = tgt.value.value
+            yield f"L{n.lineno} forgotten await `{_short(n)}`", m
         # 8. small integer constants +-1
         if isinstance(n, ast.Constant) and isinstance(n.value, int) and not isinstance(n.value, bool) and 0 <= n.value <= 64:
             m = _clone(fn)
@@ -215,9 +263,10 @@ def run_for(prop: str, program: Program, workers: int = 16, per_anchor: int = 90
         "detected": tally.get("detected", 0) + tally.get("analysis-error", 0),
         "survived": len(survivors),
         "note": "syntactic mutants (statement deletion, comparison flip/boundary, negated test, dropped operand, truthiness for `is not None`, dropped `not`, "
-                "flattened try/finally, small constant +1) of the anchor functions; a survivor is not necessarily property-breaking - this is a sensitivity "
+                "flattened try/finally, small constant +1, swallowed exception, statement moved out of a with-block, adjacent statements swapped, value-less return, forgotten await) of the anchor functions; a survivor is not necessarily property-breaking - this is a sensitivity "
                 "figure and a gap-finding aid, not a pass/fail criterion",
         "survivors_sample": survivors[:80],
+        "_all_survivors": survivors,
         "checker_crashes": crashes[:10],
     }
 
@@ -230,7 +279,7 @@ def main(argv=None):
     for p in (argv or sys.argv[1:]):
         r = run_for(p.upper(), program)
         print(f"[{p}] {r.get('summary')}")
-        for s in r.get("survivors_sample", []):
+        for s in r.pop("_all_survivors", []):
             print("   survived:", s)
         for s in r.get("checker_crashes", []):
             print("   CRASH:", s)
